@@ -143,14 +143,14 @@ def intTypeFrom : List (List (List Nat) × IntType) → Bytes → LexResult IntT
 /-- `int_type` -/
 def intType (input : Bytes) : LexResult IntType := intTypeFrom intTypeTable input
 
-/-- `value as i64` -/
-def asI64 (v : Nat) : Int := if v < 2 ^ 63 then (v : Int) else (v : Int) - 2 ^ 64
-
-def mkIntToken (v : Nat) : Option IntType → Token
-  | none => .litInt v
-  | some .Unsigned32 => .litIntU32 v
-  | some .Unsigned64 => .litIntU64 v
-  | some .Signed64 => .litIntS64 (asI64 v)
+/-- the token of a literal with value `v` and suffix `k`; `none` = the value does not fit the suffix' type:
+`value > u32::MAX` for `u` (fix 93e9a96), `i64::try_from(value)` fails for `l` (fix dc17362) — such a literal is
+rejected instead of being truncated / wrapping to a negative value -/
+def mkIntToken? (v : Nat) : Option IntType → Option Token
+  | none => some (.litInt v)
+  | some .Unsigned32 => if v < 2 ^ 32 then some (.litIntU32 v) else none
+  | some .Unsigned64 => some (.litIntU64 v)
+  | some .Signed64 => if v < 2 ^ 63 then some (.litIntS64 (v : Int)) else none
 
 /-- `literal_decimal_int` / `literal_hex_int` / `literal_octal_int` -/
 def literalIntWith (f : UInt8 → Option Nat) (base : Nat) (input : Bytes) : LexResult Token :=
@@ -158,7 +158,9 @@ def literalIntWith (f : UInt8 → Option Nat) (base : Nat) (input : Bytes) : Lex
   | .error e => .error e
   | .ok (rest, v) =>
     let p := opt (intType rest) rest
-    .ok (p.1, mkIntToken v p.2)
+    match mkIntToken? v p.2 with
+    | some tok => .ok (p.1, tok)
+    | none => .error (.lex (.rest input) .IntegerLiteralTooLarge)
 
 /-- `literal_int` -/
 def literalInt (input : Bytes) : LexResult Token :=
@@ -537,8 +539,7 @@ inductive StreamErr where
   /-- panic sites of `TokenStream::next`: `last-was-endline` = `assert!(!self.last_was_endline)`;
   `slice-start-past-end` = `&self.input_bytes[self.current_offset..]`; `subtract-overflow` =
   `self.input_bytes.len() - remaining.len()`; `no-progress` = `debug_assert!(self.current_offset < next_location)`;
-  `error-before-token` = `debug_assert!(self.current_offset <= error_offset)`; `static-rest` = the two
-  `debug_assert!`s on pointer ranges, which fail for the `&[]` literal returned by `end_of_stream()` -/
+  `error-before-token` = `debug_assert!(self.current_offset <= error_offset)` -/
   | panic (site : String)
   /-- artefact of the model only: the fuel of `readToEnd` ran out (theorem `readToEnd_fuel`: never) -/
   | outOfFuel
@@ -589,8 +590,9 @@ def Stream.next (s : Stream) (insideInclude : Bool) : Except StreamErr (PTok × 
           .error (.panic "error-before-token")
         else .error (.lexer kind errorOffset)
     | .error (.lex .static kind) =>
-      -- `LexErrorContext(&[], ..)`: the debug assertions comparing pointer ranges fail for the `&[]` literal
-      if s.debug then .error (.panic "static-rest")
+      -- `LexErrorContext(&[], ..)` of `end_of_stream()`: `rest.is_empty()` satisfies the pointer-range
+      -- debug assertions (fix c600801); `error_offset = len - 0`
+      if s.debug = true ∧ ¬ s.offset ≤ s.input.length then .error (.panic "error-before-token")
       else .error (.lexer kind s.input.length)
     | .error (.panic site) => .error (.panic site)
 
